@@ -52,8 +52,8 @@ Ew(a, b) ==
         ld == IF a.fe /\ b.fe THEN Bcast(Lead(a), Lead(b)) ELSE IF a.fe THEN Lead(a) ELSE Lead(b)
     IN  IF Bad(bt) \/ Bad(ld) THEN Err ELSE D(TRUE, ld \o bt)
 
-(* ---- contractions; the left operand is a field ---- *)
-LeadOf(a, b) == IF b.fe THEN Bcast(Lead(a), Lead(b)) ELSE Lead(a)
+(* ---- contractions; at least one operand is a field (dot / ddot are methods of the left field; @ also takes a constant on the left) ---- *)
+LeadOf(a, b) == IF a.fe /\ b.fe THEN Bcast(Lead(a), Lead(b)) ELSE IF a.fe THEN Lead(a) ELSE Lead(b)
 Last(s) == s[Len(s)]
 Front(s, k) == SubSeq(s, 1, Len(s) - k)
 Back(s, k) == SubSeq(s, k + 1, Len(s))
@@ -133,7 +133,7 @@ Result(op, a, b, arg) ==
 None == D(FALSE, <<>>)
 Cases ==
          {[op |-> op, a |-> a, b |-> b, arg |-> 0] : op \in Binary \cap Ops, a \in FeOperands, b \in FeOperands \cup PlainOperands}
-    \cup {[op |-> "ew", a |-> a, b |-> b, arg |-> 0] : a \in IF "ew" \in Ops THEN PlainOperands ELSE {}, b \in FeOperands}     \* constant on the left
+    \cup {[op |-> op, a |-> a, b |-> b, arg |-> 0] : op \in {"ew", "matmul"} \cap Ops, a \in PlainOperands, b \in FeOperands}     \* constant on the left (a plain array acts as a constant tensor)
     \cup {[op |-> op, a |-> a, b |-> None, arg |-> 0] : op \in (Unary \ {"reduce"}) \cap Ops, a \in FeOperands}
     \cup {[op |-> "reduce", a |-> a, b |-> None, arg |-> ax] : a \in IF "reduce" \in Ops THEN FeOperands ELSE {}, ax \in (-(MaxRank + 2)..(MaxRank + 1)) \cup {99}}
     \cup UNION {{[op |-> "broadcast", a |-> D(TRUE, <<ne, np>>), b |-> v, arg |-> tn] :
